@@ -375,12 +375,19 @@ def np_searchsorted(I, a, v, side="left", sorter=None):
         return [z3.And(pos >= 0, pos <= a.n),
                 spec.forall(0, pos, lambda k: a.at(k) <= val),
                 spec.forall(pos, a.n, lambda k: a.at(k) > val)]
+    if isinstance(v, (SymList, list, tuple)) and not isinstance(v, Arr):
+        v = as_arr(I, v)
     if isinstance(v, Arr):
         nm = p.fresh_name("ss")
         f = z3.Function(nm, z3.IntSort(), z3.IntSort())
-        j = z3.Int(nm + "!j")
-        body = z3.And(*[_close(fc) for fc in facts(f(j), v.at(j))])
-        p.assume(z3.ForAll([j], z3.Implies(z3.And(j >= 0, j < v.n), body)))
+        # flat (two-variable) form of the per-element contract
+        p.assume(spec.forall(0, v.n, lambda j: z3.And(f(j) >= 0, f(j) <= a.n)))
+        if side == "left":
+            p.assume(spec.forall2(0, v.n, 0, a.n, lambda j, k: z3.And(
+                z3.Implies(k < f(j), a.at(k) < v.at(j)), z3.Implies(k >= f(j), a.at(k) >= v.at(j)))))
+        else:
+            p.assume(spec.forall2(0, v.n, 0, a.n, lambda j, k: z3.And(
+                z3.Implies(k < f(j), a.at(k) <= v.at(j)), z3.Implies(k >= f(j), a.at(k) > v.at(j)))))
         return Arr(v.n, lambda k: f(k), "int", "int64", name=nm)
     val = elem_term(v, a.kind)
     pos = p.fresh_int("ss")
@@ -550,13 +557,23 @@ def np_diff(I, a, **kw):
     _use("diff")
     a = as_arr(I, a)
     n = z3.If(a.n > 0, a.n - 1, z3.IntVal(0))
-    return Arr(n, lambda k: a.at(k + 1) - a.at(k), a.kind, a.dtype)
+    r = Arr(n, lambda k: a.at(k + 1) - a.at(k), a.kind, a.dtype)
+    r._diff_of = a
+    return r
 
 
 def np_cumsum(I, a, **kw):
     """c[0]=a[0], c[k]=c[k-1]+a[k]"""
     _use("cumsum")
     a = as_arr(I, a)
+    src = getattr(a, "_diff_of", None)
+    if src is not None:
+        # cumsum(diff(x))[k] == x[k+1] - x[0]: the telescoping sum, an induction over the cumsum
+        # recurrence (base and step are discharged as lemma obligations: lemmas/telescope in
+        # contracts/partition.py); used in closed form
+        I.path.assumptions_used.add("instance of lemma cumsum-of-diff-telescopes (proved separately by induction)")
+        fs = src.at
+        return Arr(a.n, lambda k: fs(k + 1) - fs(z3.IntVal(0)), a.kind, a.dtype)
     c = I.path.fresh_arr("cumsum", a.kind, n=a.n)
     I.path.assume(z3.Implies(a.n > 0, c.at(z3.IntVal(0)) == a.at(z3.IntVal(0))))
     I.path.assume(spec.forall(1, a.n, lambda k: c.at(k) == c.at(k - 1) + a.at(k)))
@@ -585,7 +602,18 @@ def np_all(I, a, **kw):
 
 
 def np_sum(I, a, **kw):
-    raise Unsupported("np.sum needs a contract-level abstraction")
+    """sum of a BOOLEAN array = number of true entries: c in [0, n], c == 0 iff none is true
+    (partial contract: the exact count is not stated)"""
+    a = as_arr(I, a)
+    if a.kind != "bool":
+        raise Unsupported("np.sum of a non-boolean array needs a contract-level abstraction")
+    _use("sum(bool array) = count")
+    c = I.path.fresh_int("count")
+    I.path.assume(z3.And(c >= 0, c <= a.n))
+    I.path.assume(z3.Implies(c == 0, spec.forall(0, a.n, lambda k: z3.Not(a.at(k)))))
+    w = I.path.fresh_int("count.w")
+    I.path.assume(z3.Implies(c > 0, z3.And(w >= 0, w < a.n, a.at(w))))
+    return c
 
 
 def np_min(I, a, **kw):
